@@ -152,7 +152,7 @@ PROPS = {
     "C09": risk_prop2(["borrow", "withdraw", "liquidate", "bankruptcy", "pulse_health"], LIQ_DRIVERS + RISK_DRIVERS + LEDGER_DRIVERS + STAKED_DRIVERS, models=RISK_MODELS),
     "C13": risk_prop2(["add_bank", "add_bank_staked", "init_staked_settings", "edit_staked_settings", "propagate_staked", "configure_bank", "configure_emode", "borrow", "withdraw", "pulse_health", "bankruptcy", "clone_emode"],
                       LIQ_DRIVERS + RISK_DRIVERS + ADMIN_DRIVERS + STAKED_DRIVERS, models=RISK_MODELS),
-    "C14": risk_prop2(["deposit", "withdraw", "borrow", "repay", "liquidate", "bankruptcy"], LIQ_DRIVERS, models=GATE_MODELS),
+    "C14": risk_prop2(["deposit", "withdraw", "borrow", "repay", "liquidate", "bankruptcy", "propagate_fee"], LIQ_DRIVERS + RISK_DRIVERS, models=GATE_MODELS),
     "C01": ledger_prop(),
     "C02": dict(ledger_prop(), drivers=LEDGER_DRIVERS + LIQ_DRIVERS),
     "C03": ledger_prop(),
